@@ -133,6 +133,13 @@ func (t *Tr) define(prefix string, s Sort, term string) string {
 	}
 	t.n++
 	name := fmt.Sprintf("%s_%d", prefix, t.n)
+	if s != SBool_ && strings.Contains(term, "(ite ") {
+		// z3 expands define-fun before it reads patterns and rejects patterns
+		// that contain ite: a conditional value that may occur in a trigger is
+		// a constant with a defining equation instead of a macro
+		t.vc.Items = append(t.vc.Items, Item{Kind: itDecl, Text: fmt.Sprintf("(declare-const %s %s)\n(assert (= %s %s))", name, s, name, term)})
+		return name
+	}
 	t.vc.Items = append(t.vc.Items, Item{Kind: itDecl, Text: fmt.Sprintf("(define-fun %s () %s %s)", name, s, term)})
 	return name
 }
